@@ -132,7 +132,7 @@ def rule_identity(ctx: Ctx, repo: Repo) -> None:
               "relative imports are resolved by the remover only if the computation of the new imports resolves them too (otherwise a source import is taken for new and removed)",
               construct=f"remover resolves against {[str(x) for x in seen_pkg]}; gatherer contexts {[str(c['context'])[:60] for c in gather_ctx]}")
     if not remover_knows:
-        for dots, mod, moved_mod in ((1, "shapes", "shop.shapes"), (2, "shapes", "shop.shapes"), (1, None, "shop")):
+        for dots, mod, moved_mod in ((1, "shapes", "shop.shapes"), (2, "shapes", "shop.shapes"), (1, None, "shop"), (1, "shapes", "shapes"), (2, "pkg.shapes", "pkg.shapes")):
             node = R("ImportFrom", module=K(mod), relative=K(dots), names=K((alias_node("Circle"),)))
             moved = (item(moved_mod, "Circle"),)
             sc = CliScenario(repo, TCI, "RemoveImportsTransformer.leave_ImportFrom")
@@ -253,7 +253,12 @@ def rule_exempt(ctx: Ctx, repo: Repo) -> None:
                     return v
             return _b(obj, attr, nd, st)
         sc.ri.on_attr = sc.ri.interp.on_attr = on_attr  # type: ignore
-        o = sc.run({"self": S("self"), tm.positional_params()[1]: R("tree", by=K("input"), of=K(None))})
+        try:
+            o = sc.run({"self": S("self"), tm.positional_params()[1]: R("tree", by=K("input"), of=K(None))})
+        except AnalysisError as e:
+            ctx.violate("R-C16.4", tm.fq, f"move list present={with_items}: {str(e)[:160]}",
+                        "the steps of the import mover depend on a condition the scenario does not decide (the TYPE_CHECKING import must be requested unconditionally)")
+            continue
         kinds = [e[0] for e in eff]
         first_ok = kinds[:2] == ["need", "transform"] and eff[0][1] == ("typing", "TYPE_CHECKING")
         if with_items:
